@@ -2,13 +2,51 @@
 import os
 import vf
 
-LEVEL_TEXT = ''
-ASSUMPTIONS = []
+LEVEL_TEXT = ('bounded symbolic model checking, decided modularly (a whole parse through buffer_input was measured at 340 s / 11.5 GB for 4 bytes): the real '
+              'buffer_input< Reader, lf_crlf, const char*, Chunk > compiled from the headers is driven by a harness-side reader over a symbolic stream that returns '
+              'any legal sequence of read sizes (1..min(request, rest) bytes per call, 0 only at the end); the input is brought into an arbitrary valid state by real '
+              'operations with symbolic arguments (require, bump, discard), the representation invariant (buffer <= current <= end <= buffer + maximum + Chunk, '
+              'consumed + buffered = read, window == stream at the consumed offset, line/column == recount) is CHECKED in that state through the public interface, '
+              'then ONE more real operation runs and CBMC decides its contract for all streams, read-size tables, arguments and states within the bounds: '
+              'require/size/end/empty (std::overflow_error exactly when the request does not fit between cursor and buffer end, otherwise min(amount, rest of the '
+              'stream) bytes available whatever the reader returned, never asked to write outside the buffer), bump* (counters like a memory input), discard '
+              '(window, counters preserved; afterwards `maximum` bytes can be buffered), rewind guard (cursor/counters restored, also when overflow_error unwinds). '
+              'Second family: every leaf rule of a representative set runs on such a buffer_input and on a memory_input over the logical rest of the stream '
+              '(constructed with the same byte/line/column): same result, consumption, line/column, parse-error identity/position and action trace, or '
+              'std::overflow_error only if the rule\'s look-ahead does not fit. string_input / argv_input: the real classes present exactly the given bytes. '
+              'Induction (DESIGN.md section 4): rules reach the input only through these operations (C01: combinators only through rewind save/restore), every '
+              'operation preserves the invariant and agrees with the logical stream, hence whole runs agree as long as discard is used where no rewind guard or '
+              'action input is live (the documented condition).')
+
+ASSUMPTIONS = [
+    'bounds: Chunk in {1,2,4}; maximum per query constant (a heap buffer of symbolic size is prohibitively expensive for CBMC), quick: maximum 2, thorough: 0..4 '
+    '(capacity = maximum + Chunk <= 8); stream length <= capacity + 1 (one byte more than the buffer can ever hold: with c consumed-but-buffered bytes, w '
+    'window bytes and r bytes not yet read, every configuration c + w + r <= capacity + 1 is reached); amounts 0..capacity + 1',
+    'arbitrary valid state = state after the real operations require(a1); bump(k1); discard() or bump(k2) [thorough additionally: require(a3); bump(k3)] with symbolic '
+    'arguments, where the first require is served by its first read (a window of e bytes is reached by require(e) answered with e bytes, so no state is lost); '
+    'bytes in front of the cursor are never read by buffer_input and are left as these operations produce them',
+    'the reader is total and deterministic per stream offset (its read size is a symbolic table indexed by the offset: every finite sequence of legal read sizes '
+    'is some table); readers that throw (cstream_reader / istream_reader on I/O errors) are not modelled',
+    'reference for the leaf rules is memory_input< tracking_mode::eager, lf_crlf > over the rest of the stream; eager vs lazy tracking is C06, other Eol policies use the same '
+    'buffer_input code (Eol only enters through bump( in_count ) -> Eol::ch and the eol rule)',
+    'std::overflow_error( const char* ) / ~overflow_error are libstdc++ externals with empty models (the object is identified by its type only; what() is not called)',
+    'NOT APPLICABLE (I/O and FFI, cannot be encoded; listed, not claimed): read_input / internal::read_file_stdio (fopen/fread/fseek), mmap_input / internal::mmap_file '
+    '(open/fstat/mmap, empty files, page-size boundaries), file_input (alias of one of the two), cstream_input / cstream_reader (fread/feof/ferror), istream_input / '
+    'istream_reader (std::istream). Their PEGTL-side logic is: read_input = string_input over the string returned by read_string(); mmap_input = memory_input( data.begin(), '
+    'data.end() ); cstream/istream_input = buffer_input< reader > with a reader that forwards to fread / istream::read (both may legally return short reads, which is '
+    'the case covered by the symbolic reader)',
+    'argv_input( argv, n ) without explicit source builds its source name with std::ostringstream (not encoded); the check uses the constructor with an explicit source',
+    'string_input: std::string is libstdc++ (small-string path, <= 6 bytes; memcpy replaced by a byte loop because CBMC\'s built-in memcpy with symbolic length lost bytes '
+    'copied into the small-string buffer)',
+    'discard() inside a live rewind guard or under a rule with an action that takes the input is excluded (documented as forbidden: "MUST NOT be used where backtracking '
+    'to before the discard might occur")',
+]
 
 OPS = ('require', 'size', 'end', 'empty', 'bump', 'bump_in_this_line', 'bump_to_next_line', 'discard', 'rewind')
 REQ = '_ZN3tao5pegtl12buffer_inputI7vreaderNS0_5ascii3eol7lf_crlfEPKcLm%dEE7requireEm.0'
 
-# leaf rules run on buffer_input and on memory_input; need = largest look-ahead (bytes from where the rule starts) the rule may ask for
+# leaf rules run on buffer_input and on memory_input; ok = when std::overflow_error is a permitted outcome
+# (s0.c = bytes between buffer start and cursor when the rule starts, M_ = capacity)
 RULES = [
     dict(name='any', cxx='any', need=1),
     dict(name='one', cxx="one< 'a' >", need=1),
@@ -23,30 +61,61 @@ RULES = [
     dict(name='rep_min_max', cxx="rep_min_max< 1, 3, one< 'a' > >", need=4),
     dict(name='must', cxx="seq< A1, must< B1 > >", need=2),
 ]
+RULES_THOROUGH = [
+    dict(name='until', cxx="until< one< 'b' > >", ok='(s0.c+first_b(s0.byte)+1>M_)'),
+    # a grammar that discards where nothing can backtrack: arbitrarily long input through a small buffer
+    dict(name='discard_loop', cxx='until< eof, seq< any, discard > >', ok='((s0.occ==0&&s0.c+1>M_)||maximum_==0)', cxxflags=['C07_NO_TOP_ACTION'],
+         flags=['C07_NEVER_FAILS']),
+    dict(name='discard_must', cxx="seq< A1, discard, must< B1 > >", ok='((s0.occ==0&&s0.c+1>M_)||maximum_==0)', cxxflags=['C07_NO_TOP_ACTION']),
+]
 
 
 def plan(ctx):
     qs = []
+    quick = ctx.quick()
     cpp = os.path.join(vf.VERIF, 'harness', 'c07.cpp')
     h = os.path.join(vf.VERIF, 'harness', 'c07.c')
-    shape = {'NSETUP': 3, 'SETUP_SHAPE': '{0,1,3}', 'SETUP_ONE_READ': 1}
-    for chunk, maxima in ((1, (2,)), (2, (2,)), (4, (2,))):
-        unit = ctx.unit('c07_ops_c%d' % chunk, cpp=cpp, cxxflags=['-DCHUNK=%d' % chunk])
-        for mx in maxima:
-            cap = mx + chunk
-            LMAX = cap + 1
-            for i, op in enumerate(OPS):
-                qs.append(vf.Query('op/chunk%d/max%d/%s' % (chunk, mx, op), unit, h, defines=dict(shape, CHUNK=chunk, LMAX=LMAX, MAXMAX=mx),
-                                   cbmc_defines={'VF_SPLIT': 1, 'C07_OP': i, 'MAXIMUM': mx}, unwind=LMAX + 2,
-                                   unwindset=[(REQ % chunk) + ':%d' % (cap + 1)], mem_gb=3))
-    for chunk, mx in ((2, 2),):
+    kf = {k.get('id'): k for k in vf.load_known('C07')}
+    d9 = 'D9' if kf.get('D9', {}).get('status') == 'known' else None
+    if quick:
+        shape = {'NSETUP': 3, 'SETUP_SHAPE': '{0,1,3}', 'SETUP_ONE_READ': 1}
+        shape_txt = 'require(a1); bump(k1); discard() or bump(k2)'
+        op_cfgs = [(2, 2, OPS), (1, 2, ('require', 'empty', 'discard', 'rewind')), (4, 2, ('require', 'discard'))]
+        rule_cfgs = [(2, 2, RULES)]
+    else:
+        shape = {'NSETUP': 5, 'SETUP_SHAPE': '{0,1,3,0,1}', 'SETUP_ONE_READ': 1}
+        shape_txt = 'require(a1); bump(k1); discard() or bump(k2); require(a3); bump(k3)'
+        op_cfgs = [(c, m, OPS) for c in (1, 2) for m in (0, 1, 2, 3, 4)] + [(4, m, OPS) for m in (0, 1, 2, 3)]
+        rule_cfgs = [(2, 2, RULES + RULES_THOROUGH), (1, 3, RULES + RULES_THOROUGH), (4, 1, RULES), (2, 0, RULES[:1] + RULES[6:7])]
+
+    def common(chunk, mx):
         cap = mx + chunk
-        LMAX = cap + 1
-        for r in RULES:
+        lmax = cap + 1
+        return cap, lmax, dict(shape, CHUNK=chunk, LMAX=lmax, MAXMAX=mx), {'Chunk': chunk, 'maximum': mx, 'capacity': cap, 'stream_bytes': lmax, 'amounts': '0..%d' % (cap + 1),
+                                                                          'setup': shape_txt, 'reader': 'any 1..min(request, rest) bytes per call, 0 only at the end'}
+
+    for chunk, mx, ops in op_cfgs:
+        unit = ctx.unit('c07_ops_c%d' % chunk, cpp=cpp, cxxflags=['-DCHUNK=%d' % chunk])
+        cap, lmax, d, b = common(chunk, mx)
+        for op in ops:
+            kw = dict(defines=d, cbmc_defines={'VF_SPLIT': 1, 'C07_OP': OPS.index(op), 'MAXIMUM': mx}, unwind=lmax + 2, unwindset=[(REQ % chunk) + ':%d' % (cap + 1)],
+                      mem_gb=3, bounds=dict(b, operation=op))
+            qs.append(vf.Query('op/chunk%d/max%d/%s' % (chunk, mx, op), unit, h, known=d9, note='contract of buffer_input::%s from an arbitrary valid state' % op, **kw))
+            if d9 and op == 'require' and (chunk, mx) == (2, 2):
+                qs.append(vf.Query('known/D9/require', unit, h, expect_fail='D9', note='confirmation of D9: one reader call per require()', **kw))
+    for chunk, mx, rules in rule_cfgs:
+        cap, lmax, d0, b = common(chunk, mx)
+        for r in rules:
             unit = ctx.unit('c07_rule_%s_c%d' % (r['name'], chunk), cpp=cpp, cxxflags=['-DCHUNK=%d' % chunk, '-DC07_RULE=' + r['cxx']] + ['-D' + f for f in r.get('cxxflags', [])])
-            d = dict(shape, CHUNK=chunk, LMAX=LMAX, MAXMAX=mx, C07_RULE_MODE=1, C07_OVERFLOW_OK='(s0.c+%d>M_)' % r['need'])
+            d = dict(d0, C07_RULE_MODE=1, C07_OVERFLOW_OK=r.get('ok') or '(s0.c+%d>M_)' % r['need'])
             for f in r.get('flags', []):
                 d[f] = 1
-            qs.append(vf.Query('rule/chunk%d/max%d/%s' % (chunk, mx, r['name']), unit, h, defines=d, cbmc_defines={'MAXIMUM': mx}, unwind=LMAX + 2,
-                               unwindset=[(REQ % chunk) + ':%d' % (cap + 1)], mem_gb=3))
+            heavy = r['name'] in ('utf8_any', 'discard_loop', 'until')
+            qs.append(vf.Query('rule/chunk%d/max%d/%s' % (chunk, mx, r['name']), unit, h, defines=d, cbmc_defines={'MAXIMUM': mx}, unwind=lmax + 2,
+                               unwindset=[(REQ % chunk) + ':%d' % (cap + 1)], mem_gb=4 if heavy else 3, known=d9, bounds=dict(b, rule=r['cxx'], overflow_permitted_if=d['C07_OVERFLOW_OK']),
+                               note='%s on buffer_input (arbitrary valid state, short reads) vs memory_input over the rest of the stream' % r['cxx']))
+    unit = ctx.unit('c07_thin', cpp=os.path.join(vf.VERIF, 'harness', 'c07_thin.cpp'))
+    for v in ('string', 'argv'):
+        qs.append(vf.Query('thin/%s_input' % v, unit, os.path.join(vf.VERIF, 'harness', 'c07_thin.c'), defines={'LMAX': 6}, cbmc_defines={'VF_SPLIT': 1, 'V_' + v: 1}, unwind=9, mem_gb=2,
+                           bounds={'bytes': 6}, note='%s_input presents exactly the given bytes and starts at byte 0, line 1, column 1' % v))
     return qs
